@@ -22,14 +22,16 @@ import (
 
 // C34: distributed locks are mutually exclusive and notice loss.
 //
-// Real lockers (one fake client session each) contend for one lock name on one fake Redis (mini-Lua runs the
-// scripts the locker really sends; keys expire on the virtual clock; invalidation pushes are delivered by a reader
-// thread per client, like the real connection reader). The explorer enumerates thread schedules; environment
-// events (external DEL of lock keys, connection loss, Close) are deviations / extra threads.
+// Real Lockers (one fake client session each) contend for one lock name on one fake Redis: the mini-Lua interpreter
+// runs the scripts the locker really sends, keys expire on the virtual clock, invalidation pushes are delivered by a
+// reader thread per client (like the real connection reader). The explorer enumerates thread schedules; environment
+// events (external DEL of lock keys, transient transport errors, connection loss, Close, forced take-over,
+// cancellation of a waiter) are deviations or extra threads.
 
 type c34thr struct {
 	locker int
-	op     string // with | try
+	op     string // with | try | force | withc (WithContext with a context that thread "ev" cancels)
+	rounds int    // acquire/release rounds (0 = 1)
 }
 
 type c34cfg struct {
@@ -38,19 +40,20 @@ type c34cfg struct {
 	lockers  int
 	thr      []c34thr
 	// event: "" | del (another application deletes a majority of the lock keys; offered as a deviation after every
-	// script a locker runs) | del1 (deletes one key of three: a minority) | lose (connection of the holder's client is
-	// lost for good) | losere (lost and re-established) | close (the holder's Locker is closed)
-	// neterr (one script call of a live holder fails with a transient transport error; deviation)
-	event  string
-	hold   time.Duration // > 0: the holder sleeps that long (virtual time) while holding, so extensions happen
-	lat    time.Duration // > 0: every command takes that long (virtual) to reach the server; TryNextAfter = 5*lat
+	// script a locker runs) | del1 (deletes one key of three: a minority) | neterr (one script call made for a live
+	// holder fails with a transient transport error; deviation) | lose (the connection of the holder's client is lost
+	// for good) | losere (lost and re-established) | close (the holder's Locker is closed) | cancel (the context given
+	// to the withc thread is cancelled)
+	event   string
+	hold    time.Duration // > 0: the holder sleeps that long (virtual time) while holding, so extensions happen
+	lat     time.Duration // > 0: every command takes that long (virtual) to reach the server; TryNextAfter = 5*lat
 	horizon int
 	nodelay bool // no non-default choices at blocking points (long executions)
-	noloop bool
-	setpx  bool
-	nocsc  bool // ClientOption.DisableCache: no client side caching, waiters poll
-	p      int  // preemption bound
-	tier   int  // 0 quick+thorough, 1 thorough only
+	noloop  bool
+	setpx   bool
+	nocsc   bool // ClientOption.DisableCache: no client side caching, waiters poll
+	p       int  // preemption bound in the quick tier
+	tier    int  // 0 quick+thorough, 1 thorough only
 }
 
 // c34gateProg is the program that reports the "gate dropped" missed wake-up; the other programs only count it.
@@ -65,24 +68,24 @@ const (
 type c34val struct {
 	val   string
 	sess  int
-	own   []bool // keys currently owned on the server as far as the harness knows
+	own   []bool // keys currently holding this value on the server, as far as the harness has seen
 	acq   int    // successful key acquisitions
 	owner *c34hold
 }
 
 type c34hold struct {
 	thr      int
+	round    int
 	locker   int
 	ctx      context.Context
 	v        *c34val
-	err      error
 	acquired bool
 	released bool
 	accAt    time.Duration
-	lostMaj  bool // an external event took the majority of its keys away
+	lostMaj  bool // somebody else (external DEL, forced take-over) took the majority of its keys away
 	lostAt   time.Duration
-	mustAt   time.Duration // the moment from which the context has to be cancelled by the locker (loss / Lose / Close)
-	must     bool
+	must     bool // the locker has to cancel the context on its own (loss of keys / connection / Close)
+	mustAt   time.Duration
 	doneAt   time.Duration
 	wasDone  bool
 	// pastAwait: the thread has decided to release on its own; later events create no obligation for the locker
@@ -133,7 +136,9 @@ func c34body(c c34cfg) func(x *vsched.Exec) {
 			}
 			lockers = append(lockers, lk)
 		}
-		holders := make([]*c34hold, len(c.thr))
+		var holders []*c34hold               // one per successful acquisition
+		results := make([]string, len(c.thr)) // "" until the thread has finished
+		inWith := make([]bool, len(c.thr))    // the thread is inside WithContext
 		var vals []*c34val
 		findVal := func(v string) *c34val {
 			for _, r := range vals {
@@ -146,23 +151,10 @@ func c34body(c c34cfg) func(x *vsched.Exec) {
 		closed := make([]bool, c.lockers)
 		evDone := false
 		evWhat := ""
-		if c.event == "neterr" {
-			for _, cl := range clients {
-				cl.Fail = func(argv []string) error {
-					if evDone || len(argv) < 5 || (argv[0] != "EVALSHA" && argv[0] != "EVAL") || vsched.Cur() == nil {
-						return nil
-					}
-					v := findVal(argv[4])
-					if v == nil || v.owner == nil || v.owner.released || !c34live(v.owner.ctx) {
-						return nil
-					}
-					if vsched.Choose(2, vsched.KDev, "neterr") == 1 {
-						evDone = true
-						vsched.Logf("transient transport error on %s of thread %d's value at %v", argv[0], v.owner.thr, x.Elapsed())
-						return errC34net
-					}
-					return nil
-				}
+		forced := false
+		for _, t := range c.thr {
+			if t.op == "force" {
+				forced = true
 			}
 		}
 
@@ -178,13 +170,13 @@ func c34body(c c34cfg) func(x *vsched.Exec) {
 		// refresh re-evaluates which holders have to be cancelled by the locker now
 		refresh := func() {
 			for _, h := range holders {
-				if h == nil || !h.acquired || h.pastAwait {
+				if !h.acquired || h.released {
 					continue
 				}
-				if !h.lostMaj && evDone && (c.event == "del" || c.event == "del1") && owned(h.v) < int(c.majority) {
+				if !h.lostMaj && ((evDone && (c.event == "del" || c.event == "del1")) || forced) && owned(h.v) < int(c.majority) {
 					h.lostMaj, h.lostAt = true, x.Elapsed()
 				}
-				if !h.must && (h.lostMaj || (clients[h.locker].Lost && c.event == "lose") || closed[h.locker]) {
+				if !h.must && !h.pastAwait && (h.lostMaj || (clients[h.locker].Lost && c.event == "lose") || closed[h.locker]) {
 					h.must, h.mustAt = true, x.Elapsed()
 				}
 			}
@@ -192,16 +184,14 @@ func c34body(c c34cfg) func(x *vsched.Exec) {
 		describe := func() string {
 			s := ""
 			for _, h := range holders {
-				if h != nil && h.acquired {
-					s += fmt.Sprintf("[thread %d locker %d acquired@%v live=%v released=%v lostMajority=%v] ", h.thr, h.locker, h.accAt, c34live(h.ctx), h.released, h.lostMaj)
-				}
+				s += fmt.Sprintf("[thread %d round %d locker %d acquired@%v live=%v released=%v lostMajority=%v] ", h.thr, h.round, h.locker, h.accAt, c34live(h.ctx), h.released, h.lostMaj)
 			}
 			return s
 		}
 		checkExcl := func(where string) {
 			n := 0
 			for _, h := range holders {
-				if h != nil && h.acquired && !h.lostMaj && c34live(h.ctx) {
+				if h.acquired && !h.lostMaj && c34live(h.ctx) {
 					n++
 				}
 			}
@@ -210,11 +200,13 @@ func c34body(c c34cfg) func(x *vsched.Exec) {
 			}
 		}
 
+		inHook := false
 		extDel := func() {
 			n := int(c.majority)
 			if c.event == "del1" {
 				n = 1
 			}
+			inHook = true
 			for _, k := range keys[:n] {
 				if g := srv.Do("GET", k); g.T == '$' {
 					if v := findVal(g.S); v != nil {
@@ -223,12 +215,32 @@ func c34body(c c34cfg) func(x *vsched.Exec) {
 				}
 				srv.Do("DEL", k)
 			}
+			inHook = false
 			evDone = true
 			vsched.Logf("external DEL of %d key(s) at %v", n, x.Elapsed())
 			refresh()
 		}
 
-		inHook := false
+		if c.event == "neterr" {
+			for _, cl := range clients {
+				cl.Fail = func(argv []string) error {
+					if evDone || len(argv) < 5 || (argv[0] != "EVALSHA" && argv[0] != "EVAL") || vsched.Cur() == nil {
+						return nil
+					}
+					v := findVal(argv[4])
+					if v == nil || v.owner == nil || v.owner.released || !c34live(v.owner.ctx) {
+						return nil
+					}
+					if vsched.Choose(2, vsched.KDev, "neterr") == 1 {
+						evDone = true
+						vsched.Logf("transient transport error on %s for thread %d's value at %v", argv[0], v.owner.thr, x.Elapsed())
+						return errC34net
+					}
+					return nil
+				}
+			}
+		}
+
 		logPos := 0
 		srv.AfterExec = func(ss *simredis.Session, argv []string, r simredis.Reply) {
 			start := logPos
@@ -272,6 +284,9 @@ func c34body(c c34cfg) func(x *vsched.Exec) {
 							v = &c34val{val: val, sess: li, own: make([]bool, total)}
 							vals = append(vals, v)
 						}
+						for _, o := range vals {
+							o.own[ki] = false // a forced SET overwrites the previous owner's value
+						}
 						v.own[ki] = true
 						v.acq++
 					}
@@ -285,71 +300,129 @@ func c34body(c c34cfg) func(x *vsched.Exec) {
 					}
 				}
 			}
+			refresh()
 			checkExcl("server command " + name)
 			if (c.event == "del" || c.event == "del1") && !evDone && vsched.Cur() != nil {
 				if vsched.Choose(2, vsched.KDev, "extdel") == 1 {
-					inHook = true
 					extDel()
-					inHook = false
 				}
 			}
 		}
 
 		anyHolder := func() *c34hold {
 			for _, h := range holders {
-				if h != nil && h.acquired && !h.released {
+				if h.acquired && !h.released {
 					return h
 				}
 			}
 			return nil
 		}
 
+		var cancelSrc context.CancelFunc
+		srcCtx := context.Background()
+		if c.event == "cancel" {
+			srcCtx, cancelSrc = context.WithCancel(context.Background())
+		}
+
 		for ti := range c.thr {
 			ti := ti
 			t := c.thr[ti]
 			vsched.GoNamed("t"+strconv.Itoa(ti), func() {
-				h := &c34hold{thr: ti, locker: t.locker}
-				var cancel context.CancelFunc
-				if t.op == "try" {
-					h.ctx, cancel, h.err = lockers[t.locker].TryWithContext(context.Background(), c34lock)
-				} else {
-					h.ctx, cancel, h.err = lockers[t.locker].WithContext(context.Background(), c34lock)
+				rounds := t.rounds
+				if rounds == 0 {
+					rounds = 1
 				}
-				if h.err != nil {
-					holders[ti] = h
-					return
-				}
-				// identify the value of this acquisition: the one of this locker that got a majority and has no owner yet
-				for _, v := range vals {
-					if v.sess == t.locker && v.owner == nil && v.acq >= int(c.majority) {
-						if h.v != nil {
-							x.Fail("harness: ambiguous lock value", "thread %d", ti)
-						}
-						h.v = v
+				res := ""
+				for round := 0; round < rounds; round++ {
+					h := &c34hold{thr: ti, round: round, locker: t.locker}
+					var cancel context.CancelFunc
+					var err error
+					switch t.op {
+					case "try":
+						h.ctx, cancel, err = lockers[t.locker].TryWithContext(context.Background(), c34lock)
+					case "force":
+						h.ctx, cancel, err = lockers[t.locker].ForceWithContext(context.Background(), c34lock)
+					case "withc":
+						inWith[ti] = true
+						h.ctx, cancel, err = lockers[t.locker].WithContext(srcCtx, c34lock)
+						inWith[ti] = false
+					default:
+						inWith[ti] = true
+						h.ctx, cancel, err = lockers[t.locker].WithContext(context.Background(), c34lock)
+						inWith[ti] = false
 					}
+					if err != nil {
+						e := err.Error()
+						if i := strings.Index(e, ":"); i > 0 {
+							e = e[:i]
+						}
+						res += e + " "
+						ok := false
+						switch {
+						case t.op == "try" && errors.Is(err, ErrNotLocked):
+							ok = true
+						case t.op == "withc" && errors.Is(err, context.Canceled) && evDone:
+							ok = true
+						case errors.Is(err, ErrLockerClosed) && closed[t.locker]:
+							ok = true
+						}
+						if !ok {
+							x.Fail("lock attempt failed without a reason the caller can see", "thread %d (%s, locker %d) round %d: %v (locker closed=%v, client lost=%v, event %s done=%v)", ti, t.op, t.locker, round, err, closed[t.locker], clients[t.locker].Lost, c.event, evDone)
+						}
+						break
+					}
+					// identify the value of this acquisition: the one of this locker that got a majority and has no owner yet
+					for _, v := range vals {
+						if v.sess == t.locker && v.owner == nil && v.acq >= int(c.majority) {
+							if h.v != nil {
+								x.Fail("harness: ambiguous lock value", "thread %d", ti)
+							}
+							h.v = v
+						}
+					}
+					if h.v == nil {
+						x.Fail("lock reported as acquired without a majority of keys set", "thread %d locker %d: no value of this locker was set on >= %d keys", ti, t.locker, c.majority)
+						break
+					}
+					h.v.owner = h
+					h.acquired, h.accAt = true, x.Elapsed()
+					holders = append(holders, h)
+					refresh()
+					checkExcl("acquisition by thread " + strconv.Itoa(ti))
+					if c.hold > 0 {
+						time.Sleep(c.hold)
+					} else {
+						vsched.Point("hold", nil)
+					}
+					checkExcl("hold of thread " + strconv.Itoa(ti))
+					// when the locker has to cancel the context on its own, wait for that (bounded by the key validity)
+					vsched.Point("await-cancel", func() bool {
+						return !h.must || !c34live(h.ctx) || x.Elapsed() > h.mustAt+2*c34validity
+					})
+					h.doneAt, h.wasDone, h.pastAwait = x.Elapsed(), !c34live(h.ctx), true
+					cancel()
+					h.released = true
+					res += "acquired"
+					if h.must {
+						switch {
+						case !h.wasDone:
+							x.Fail("lock context not cancelled after the holder lost its keys / connection", "thread %d (locker %d): had to be cancelled from %v on (event %s), still live at %v; %s", ti, h.locker, h.mustAt, c.event, h.doneAt, describe())
+						case h.lostMaj && h.doneAt-h.lostAt > c34interval:
+							x.Fail("lock context cancelled late after losing the majority of keys", "thread %d: lost at %v, context done seen at %v (> one extend interval %v)", ti, h.lostAt, h.doneAt, c34interval)
+						case h.lostMaj && h.doneAt == h.lostAt:
+							res += "(cancelled-at-once)"
+						case h.lostMaj:
+							res += "(cancelled-by-timer)"
+						default:
+							res += "(cancelled)"
+						}
+					}
+					res += " "
 				}
-				if h.v == nil {
-					x.Fail("lock reported as acquired without a majority of keys set", "thread %d locker %d: no value of this locker was set on >= %d keys", ti, t.locker, c.majority)
-					return
+				if res == "" {
+					res = "-"
 				}
-				h.v.owner = h
-				h.acquired, h.accAt = true, x.Elapsed()
-				holders[ti] = h
-				refresh()
-				checkExcl("acquisition by thread " + strconv.Itoa(ti))
-				if c.hold > 0 {
-					time.Sleep(c.hold)
-				} else {
-					vsched.Point("hold", nil)
-				}
-				checkExcl("hold of thread " + strconv.Itoa(ti))
-				// when the locker has to cancel the context on its own, wait for that (bounded by the key validity)
-				vsched.Point("await-cancel", func() bool {
-					return !h.must || !c34live(h.ctx) || x.Elapsed() > h.mustAt+2*c34validity
-				})
-				h.doneAt, h.wasDone, h.pastAwait = x.Elapsed(), !c34live(h.ctx), true
-				cancel()
-				h.released = true
+				results[ti] = res
 			})
 		}
 		switch c.event {
@@ -363,8 +436,6 @@ func c34body(c c34cfg) func(x *vsched.Exec) {
 					clients[h.locker].Lose()
 				case "losere":
 					clients[h.locker].Lose()
-					evDone = true
-					refresh()
 					vsched.Point("ev-reconnect", nil)
 					clients[h.locker].Reconnect()
 					clients[h.locker].StartReader("reader" + evWhat + "b")
@@ -377,6 +448,20 @@ func c34body(c c34cfg) func(x *vsched.Exec) {
 				vsched.Logf("%s of locker %s at %v", c.event, evWhat, x.Elapsed())
 				refresh()
 			})
+		case "cancel":
+			vsched.GoDaemon("ev", func() {
+				vsched.Point("ev-wait", func() bool {
+					for ti, t := range c.thr {
+						if t.op == "withc" && inWith[ti] {
+							return true
+						}
+					}
+					return false
+				})
+				evDone = true
+				cancelSrc()
+				vsched.Logf("waiter's context cancelled at %v", x.Elapsed())
+			})
 		}
 
 		st := x.Run()
@@ -385,10 +470,21 @@ func c34body(c c34cfg) func(x *vsched.Exec) {
 				vsched.Logf("state at %s (t=%v): %s", st, x.Elapsed(), describe())
 				// name the cause when a WithContext caller waits on a gate that its locker no longer knows
 				for ti, t := range c.thr {
-					if holders[ti] != nil || t.op != "with" {
+					if !inWith[ti] {
 						continue
 					}
 					m := lockers[t.locker].(*locker)
+					free := true
+					inHook = true
+					for _, k := range keys {
+						if srv.Do("EXISTS", k).I != 0 {
+							free = false
+						}
+					}
+					inHook = false
+					if m.gates != nil && m.gates[c34lock] != nil && free && !clients[t.locker].Lost {
+						x.Fail("WithContext waiter blocked forever although the lock is free and its gate is registered", "%s: thread %d (locker %d) waits in WithContext, no lock key exists on the server, nobody holds the lock: the wake-up was lost; %s", st, ti, t.locker, describe())
+					}
 					if m.gates != nil && m.gates[c34lock] == nil {
 						if c.name == c34gateProg {
 							x.Fail("WithContext waiter never woken: its gate was dropped from locker.gates", "%s: thread %d (locker %d) is blocked in WithContext but locker.gates has no gate for the name any more, so invalidations of the lock keys wake nobody; %s", st, ti, t.locker, describe())
@@ -403,37 +499,12 @@ func c34body(c c34cfg) func(x *vsched.Exec) {
 			return
 		}
 		out := ""
-		for ti, h := range holders {
-			if h == nil {
+		for ti, res := range results {
+			if res == "" {
 				x.Fail("harness: thread did not record a result", "thread %d", ti)
 				return
 			}
-			switch {
-			case h.err != nil:
-				e := h.err.Error()
-				if i := strings.Index(e, ":"); i > 0 {
-					e = e[:i]
-				}
-				out += "t" + strconv.Itoa(ti) + "=" + e + " "
-				if c.thr[ti].op == "with" && !(closed[h.locker] || clients[h.locker].Lost || c.event == "losere") {
-					x.Fail("WithContext failed although its context is not done and the locker is open", "thread %d: %v", ti, h.err)
-				}
-			default:
-				out += "t" + strconv.Itoa(ti) + "=acquired "
-				if h.must {
-					if !h.wasDone {
-						x.Fail("lock context not cancelled after the holder lost its keys / connection", "thread %d (locker %d): had to be cancelled from %v on (event %s), still live at %v; %s", ti, h.locker, h.mustAt, c.event, h.doneAt, describe())
-					} else if h.lostMaj && h.doneAt-h.lostAt > c34interval {
-						x.Fail("lock context cancelled late after losing the majority of keys", "thread %d: lost at %v, context done seen at %v (> one extend interval %v)", ti, h.lostAt, h.doneAt, c34interval)
-					} else if h.lostMaj && h.doneAt == h.lostAt {
-						out += "(cancelled-at-once) "
-					} else if h.lostMaj {
-						out += "(cancelled-by-timer) "
-					} else {
-						out += "(cancelled) "
-					}
-				}
-			}
+			out += "t" + strconv.Itoa(ti) + "=" + res
 		}
 		if evDone {
 			out += "event=" + c.event
@@ -448,8 +519,8 @@ func c34body(c c34cfg) func(x *vsched.Exec) {
 			out += " extensions=" + strconv.Itoa(n)
 		}
 		// a single uncontended thread must get the lock
-		if len(c.thr) == 1 && c.event == "" && holders[0].err != nil {
-			x.Fail("uncontended lock attempt failed", "%v", holders[0].err)
+		if len(c.thr) == 1 && c.event == "" && !strings.HasPrefix(results[0], "acquired") {
+			x.Fail("uncontended lock attempt failed", "%s", results[0])
 		}
 		x.Outcome = out
 	}
@@ -457,42 +528,50 @@ func c34body(c c34cfg) func(x *vsched.Exec) {
 
 func c34cfgs() []c34cfg {
 	w, t := "with", "try"
+	two := []c34thr{{0, w, 0}, {1, w, 0}}
 	return []c34cfg{
-		{name: "solo-with-m1", majority: 1, lockers: 1, thr: []c34thr{{0, w}}, p: 2},
-		{name: "2lockers-with-try-m1", majority: 1, lockers: 2, thr: []c34thr{{0, w}, {1, t}}, p: 1},
-		{name: "2lockers-with-with-m1-extdel", majority: 1, lockers: 2, thr: []c34thr{{0, w}, {1, w}}, event: "del", p: 1},
-		{name: "2lockers-with-with-m1-lose", majority: 1, lockers: 2, thr: []c34thr{{0, w}, {1, w}}, event: "lose", p: 1},
-		{name: "2lockers-with-with-m1-losere", majority: 1, lockers: 2, thr: []c34thr{{0, w}, {1, w}}, event: "losere", p: 1},
-		{name: "2lockers-with-with-m1-close", majority: 1, lockers: 2, thr: []c34thr{{0, w}, {1, w}}, event: "close", p: 1},
-		{name: "2lockers-with-with-m1-noloop-longhold-neterr", majority: 1, lockers: 2, thr: []c34thr{{0, w}, {1, w}}, event: "neterr", noloop: true, hold: 1500 * time.Millisecond, p: 1},
-		{name: "2lockers-with-with-m1-longhold-latency", majority: 1, lockers: 2, thr: []c34thr{{0, w}, {1, w}}, hold: 1500 * time.Millisecond, lat: 20 * time.Millisecond, horizon: 30000, nodelay: true, p: 0},
-		{name: "2lockers-with-with-m1-noloop", majority: 1, lockers: 2, thr: []c34thr{{0, w}, {1, w}}, noloop: true, p: 1},
-		{name: "2lockers-with-with-m1-setpx", majority: 1, lockers: 2, thr: []c34thr{{0, w}, {1, w}}, setpx: true, p: 1},
-		{name: "2lockers-with-with-m1-nocsc", majority: 1, lockers: 2, thr: []c34thr{{0, w}, {1, w}}, nocsc: true, p: 1},
-		{name: "2lockers-with-with-m2", majority: 2, lockers: 2, thr: []c34thr{{0, w}, {1, w}}, p: 1},
-		{name: "2lockers-with-with-m2-extdel", majority: 2, lockers: 2, thr: []c34thr{{0, w}, {1, w}}, event: "del", p: 1, tier: 1},
-		{name: "2lockers-with-try-m2-extdel1", majority: 2, lockers: 2, thr: []c34thr{{0, w}, {1, t}}, event: "del1", p: 1, tier: 1},
-		{name: "3lockers-with-with-with-m1", majority: 1, lockers: 3, thr: []c34thr{{0, w}, {1, w}, {2, w}}, p: 2, tier: 1},
-		{name: "2lockers-3threads-m1", majority: 1, lockers: 2, thr: []c34thr{{0, w}, {0, w}, {1, w}}, p: 2, tier: 1},
+		{name: "solo-with-m1", majority: 1, lockers: 1, thr: []c34thr{{0, w, 2}}, p: 2},
+		{name: "2lockers-with-try-m1", majority: 1, lockers: 2, thr: []c34thr{{0, w, 0}, {1, t, 0}}, p: 1},
+		{name: "2lockers-with-force-m1", majority: 1, lockers: 2, thr: []c34thr{{0, w, 0}, {1, "force", 0}}, p: 1},
+		{name: "2lockers-with-withc-m1-cancel", majority: 1, lockers: 2, thr: []c34thr{{0, w, 0}, {1, "withc", 0}}, event: "cancel", p: 1},
+		{name: "1locker-with-withc-with-m1-cancel", majority: 1, lockers: 1, thr: []c34thr{{0, w, 0}, {0, "withc", 0}, {0, w, 0}}, event: "cancel", p: 1},
+		{name: "2lockers-with-with-m1-extdel", majority: 1, lockers: 2, thr: two, event: "del", p: 1},
+		{name: "2lockers-with-with-m1-lose", majority: 1, lockers: 2, thr: two, event: "lose", p: 1},
+		{name: "2lockers-with-with-m1-losere", majority: 1, lockers: 2, thr: two, event: "losere", p: 1},
+		{name: "2lockers-with-with-m1-close", majority: 1, lockers: 2, thr: two, event: "close", p: 1},
+		{name: "2lockers-with-with-m1-noloop-longhold-neterr", majority: 1, lockers: 2, thr: two, event: "neterr", noloop: true, hold: 1500 * time.Millisecond, p: 1},
+		{name: "2lockers-with-with-m1-longhold-latency", majority: 1, lockers: 2, thr: two, hold: 1500 * time.Millisecond, lat: 20 * time.Millisecond, horizon: 30000, nodelay: true, p: 0},
+		{name: "2lockers-with-with-m1-noloop", majority: 1, lockers: 2, thr: two, noloop: true, p: 1},
+		{name: "2lockers-with-with-m1-setpx", majority: 1, lockers: 2, thr: two, setpx: true, p: 1},
+		{name: "2lockers-with-with-m1-nocsc", majority: 1, lockers: 2, thr: two, nocsc: true, p: 1},
+		{name: "2lockers-relock-m1", majority: 1, lockers: 2, thr: []c34thr{{0, w, 2}, {1, w, 0}}, p: 1},
+		{name: "2lockers-with-with-m2", majority: 2, lockers: 2, thr: two, p: 1},
+		{name: "2lockers-with-with-m2-extdel", majority: 2, lockers: 2, thr: two, event: "del", p: 0},
+		{name: "2lockers-with-try-m2-extdel1", majority: 2, lockers: 2, thr: []c34thr{{0, w, 0}, {1, t, 0}}, event: "del1", p: 1, tier: 1},
+		{name: "2lockers-with-force-m2", majority: 2, lockers: 2, thr: []c34thr{{0, w, 0}, {1, "force", 0}}, p: 1, tier: 1},
+		{name: "3lockers-with-with-with-m1", majority: 1, lockers: 3, thr: []c34thr{{0, w, 0}, {1, w, 0}, {2, w, 0}}, p: 2, tier: 1},
+		{name: "2lockers-3threads-m1", majority: 1, lockers: 2, thr: []c34thr{{0, w, 0}, {0, w, 0}, {1, w, 0}}, p: 2, tier: 1},
 		// the two programs explored with 2 preemptions also in the quick tier come last (they take what is left of the budget)
-		{name: "1locker-with-with-m1", majority: 1, lockers: 1, thr: []c34thr{{0, w}, {0, w}}, p: 2},
-		{name: c34gateProg, majority: 1, lockers: 2, thr: []c34thr{{0, w}, {1, w}}, p: 2},
+		{name: "1locker-with-with-m1", majority: 1, lockers: 1, thr: []c34thr{{0, w, 0}, {0, w, 0}}, p: 2},
+		{name: c34gateProg, majority: 1, lockers: 2, thr: two, p: 2},
 	}
 }
 
 func TestVerif_C34(t *testing.T) {
 	vrun.Main(t, "C34", func(r *vrun.Run) {
 		r.Rule = "every schedule (preemption/delay/deviation bounded) of 2-3 threads acquiring one lock name through real Lockers over a fake Redis; non-trivial = threads really blocked on each other"
-		r.Assume("simredis models Redis 7 tracking: keys read by GET inside a script are tracked for the caller (OPTOUT), PEXPIREAT/SET/DEL/expiry invalidate; keys expire exactly on time (idealised active expiry)")
-		r.Assume("the fake client delivers invalidation pushes through one reader thread per client; connection loss is Lose() (OnInvalidations(nil), every later command fails)")
-		r.Assume("mutual exclusion is only demanded of holders that did not lose keys to an external DEL (the statement's precondition); 'promptly' = within one extend interval of virtual time")
+		r.Assume("simredis models Redis 7 tracking: keys read by GET inside a script are tracked for the caller (OPTOUT), PEXPIREAT/SET/DEL/expiry invalidate, self-invalidations follow the reply unless NOLOOP; keys expire exactly on time (idealised active expiry)")
+		r.Assume("the fake client delivers invalidation pushes through one reader thread per client; connection loss is Lose() (OnInvalidations(nil), every later command fails until Reconnect)")
+		r.Assume("mutual exclusion is only demanded of holders that did not lose keys to an external DEL or a forced take-over (the statement's precondition); 'promptly' = within one extend interval of virtual time; extension timers are never starved (no early timers)")
+		r.Note("without NoLoopTracking every extension invalidates the holder's own tracking of the key, which triggers the next extension at once (the 'Tracking Loop' of the repository's tests): program 2lockers-with-with-m1-longhold-latency counts the PEXPIREATs of a 1.5 s hold with 20 ms round trips in its outcome (NOLOOP: 1-2)")
+		r.Note("the missed wake-up 'gate dropped from locker.gates' has one root cause and is reported by program " + c34gateProg + " only; the other programs count it as an outcome")
 		var cfgs []c34cfg
 		for _, c := range c34cfgs() {
 			if c.tier == 0 || !r.Quick() {
 				cfgs = append(cfgs, c)
 			}
 		}
-		r0, target := r.Remaining(), vrun.Pick(r, 50.0, 840.0) // seconds of exploration per shard
+		r0, target := r.Remaining(), vrun.Pick(r, 45.0, 840.0) // seconds of exploration per shard
 		for ci, c := range cfgs {
 			left := target - (r0 - r.Remaining())
 			if left < 1 {
